@@ -9,7 +9,7 @@
     skipped; non-contiguous repository ids rejected).  Repositories without documents are lost by design
     (they have no entry in [view]). *)
 From ZV Require Import Lib.Base Model.MergeDocs Proofs.MergeDocsProofs Proofs.MergeDocsTotal Proofs.MergeDocsSearch
-  Proofs.MergeDocsWidth.
+  Proofs.MergeDocsWidth Proofs.MergeDocsWidthNec.
 From Coq Require Import Permutation Sorted.
 
 (** the merged shard shows exactly the documents of the inputs' live repositories, shard by shard in
@@ -196,6 +196,16 @@ Proof.
   split; [exact Hmb|]. split; [exact Ho|]. apply C16_explode_preserves_repo; auto.
 Qed.
 Print Assumptions C16_impl_total_preserves.
+
+(** ... and 64 bits are NECESSARY: for every narrower bit counter there is a well-formed, mergeable shard (w+1 <= 64
+    branches, one document on the last one) that merge and explode refuse although the code as written keeps it.
+    (For w < 64 the model of the walk assumes <= 64 branches per repository, which the witness satisfies.) *)
+Theorem C16_walk_width_necessary :
+  forall (w : nat), (w < 64)%nat ->
+    exists sh, wf_shard sh /\ mergeable sh /\ merge_w w [sh] = Err 2 /\ explode_w w sh = Err 2 /\
+               (exists b, merge_impl [sh] = Ok b /\ viewr b = viewr sh).
+Proof. exact walk_width_necessary. Qed.
+Print Assumptions C16_walk_width_necessary.
 
 (** The 32-bit walk the code had before the repair (`id := uint32(1)`) is NOT sufficient: a well-formed, mergeable
     shard with one repository of 33 branches and one document on the 33rd is refused by merge and by explode with
